@@ -188,11 +188,13 @@ def oracle(case, impl=None):
         # outcome must equal the baseline's, as a map lower-cased name -> values
         base = fc.run_impl(case["base_columns"], case["base_values"], system, kw)
         kind = case["variant"]
-        site = {"int": SITE_INT, "cwd": SITE_UNBOUND, "userfile": SITE_UNBOUND}.get(kind, f"c09:variant:{kind}")
+        site = {"int": SITE_INT, "cwd": SITE_UNBOUND, "userfile": SITE_UNBOUND, "userfile-named": "c09:variant:userfile-named"}.get(kind, f"c09:variant:{kind}")
         if kind == "cwd":
             impl = run_case(case, cwd_dir=system)
         elif kind == "userfile":
             impl = run_case(case, user_file=True)
+        elif kind == "userfile-named":
+            impl = run_case(case, user_file=case["user_file_name"])
         st = impl["status"]
         if st != base["status"]:
             fails.append((f"outcome depends on {kind}", st, base["status"], site))
@@ -382,6 +384,10 @@ def gen_variant_cases(rng, n_per_system):
             # working directory containing a directory named like the system / a user-written relations file
             cases.append(dict(base, variant="cwd", columns=bcols, values=bvals))
             cases.append(dict(base, variant="userfile", columns=bcols, values=bvals))
+            # ... and a user-written relations file that happens to be NAMED like another packaged system, in a sub-directory:
+            # "a path to a relations file given in place of a system name is used as the relations"
+            other = [x for x in fc.SYSTEMS if x != system][int(rng.integers(0, len(fc.SYSTEMS) - 1))]
+            cases.append(dict(base, variant="userfile-named", columns=bcols, values=bvals, user_file_name=f"relations/{other}"))
     return cases
 
 
@@ -444,16 +450,16 @@ def gen_fixed_cases():
 # ----------------------------------------------------------------------------- run
 def model_for(case):
     fam = case["family"]
-    exists = fam == "variant" and case["variant"] in ("cwd", "userfile")
+    exists = fam == "variant" and case["variant"] in ("cwd", "userfile", "userfile-named")
     user_rows = None
-    if fam == "variant" and case["variant"] == "userfile":
+    if fam == "variant" and case["variant"] in ("userfile", "userfile-named"):
         user_rows = []
         for co, rhs in fc.file_rows(case["system"]):
             den = 1
             for v in list(co) + [rhs]: den = den * v.denominator // math.gcd(den, v.denominator)
             user_rows.append(([int(c * den) for c in co], int(rhs * den), den))
     # the user-file variant hands the real code a PATH (not a packaged system name); the model gets the same kind of name
-    sysname = "my_relations.txt" if user_rows is not None else case["system"]
+    sysname = (case.get("user_file_name") or "my_relations.txt") if user_rows is not None else case["system"]
     return fc.model_op(case["columns"], case["values"], sysname, case.get("kw"), exists=exists, user_rows=user_rows)
 
 
@@ -493,7 +499,7 @@ def run_cli(case):
     import io, os, tempfile, shutil, warnings
     import pandas
     from click.testing import CliRunner
-    from cij.cli.fill import main
+    from cij.cli.cij import main          # the documented command: `cij fill …` (the group, as installed)
     kw = case.get("kw", {})
     cols, vals = case["columns"], case["values"]
     n = len(vals[0]) if vals else 0
@@ -504,7 +510,7 @@ def run_cli(case):
     try:
         path = os.path.join(tmp, "elast.dat")
         with open(path, "w") as fp: fp.write("\n".join(lines) + "\n")
-        args = ["-s", case["system"]]
+        args = ["fill", "-s", case["system"]]
         if kw.get("ignore_residuals"): args.append("--ignore-residuals")
         if kw.get("ignore_rank"): args.append("--ignore-rank")
         if "drop_atol" in kw: args += ["--drop-atol", repr(float(kw["drop_atol"]))]
